@@ -116,6 +116,28 @@ theorem hyphen_type_exception (names : List String) (ov : Bool) (pre post : List
     · simp only [Bool.and_eq_true, beq_iff_eq] at hh; exact absurd hh h1.2
     · simp [hh, ih']
 
+/-- **a reference or a function call always makes the default dynamic** (d989f12), for EVERY question type —
+    the hyphen data types included, whatever hyphens precede it: the `${reference}` is expanded, never left as
+    literal text in the instance -/
+theorem reference_or_call_dynamic (dflt ty : Str) (hne : dflt ≠ [])
+    (h : ∃ t ∈ (scanWith pinnedRules dflt).1, Lexer.pinnedOverrideNames.contains t.1 = true) :
+    Lexer.defaultIsDynamic dflt ty = some true := by
+  rw [classification_is_pinned]
+  unfold Lexer.dynamicPinned
+  have he : dflt.isEmpty = false := by cases dflt <;> simp_all
+  have hov : ((scanWith pinnedRules dflt).1.any fun t => Lexer.pinnedOverrideNames.contains t.1) = true := by
+    rw [List.any_eq_true]
+    obtain ⟨t, ht, hc⟩ := h
+    exact ⟨t, ht, hc⟩
+  have hdyn : ∃ t ∈ (scanWith pinnedRules dflt).1, Lexer.pinnedDynNames.contains t.1 = true := by
+    obtain ⟨t, ht, hc⟩ := h
+    refine ⟨t, ht, ?_⟩
+    simp only [Lexer.pinnedOverrideNames, Lexer.pinnedDynNames, List.contains_cons, List.contains_nil,
+      Bool.or_false, Bool.or_eq_true, beq_iff_eq] at hc ⊢
+    rcases hc with hc | hc <;> simp [hc]
+  simp only [he, Bool.false_eq_true, if_false, hov]
+  exact congrArg some (dynLoop_true_of_override _ _ _ hdyn)
+
 theorem static_single_token (n : String) (v ty : Str) (hv : v ≠ [])
     (hn : Lexer.pinnedDynNames.contains n = false) (hscan : scanWith pinnedRules v = ([(n, v)], [])) :
     Lexer.defaultIsDynamic v ty = some false := by
@@ -446,6 +468,8 @@ example : Lexer.dynamicPinned "2020-01-01 - 1".toList "dateTime".toList = false
     ∧ Lexer.dynamicPinned "1 - today()".toList "q date".toList = true
     ∧ Lexer.dynamicPinned "2020-01-01T00:00:00".toList "datetime".toList = false
     ∧ Lexer.dataTypeOf "gps".toList = "geopoint".toList ∧ Lexer.dataTypeOf "text".toList = "string".toList := by decide +kernel
+example : ∃ t ∈ (scanWith pinnedRules "2020-01-01 - ${a}".toList).1, Lexer.pinnedOverrideNames.contains t.1 = true := by
+  decide +kernel
 -- lexer: the traps of DESIGN Appendix F on the pinned rules
 example : (scanWith pinnedRules "a <= b".toList).1.map (·.1) = ["NAME", "WHITESPACE", "OPS_COMP", "OPS_COMP", "WHITESPACE", "NAME"] := by
   decide +kernel
